@@ -14,6 +14,13 @@ CHECKS = {
   design="7 C08, 3.4, 3.5"),
 }
 
+CHECKS["C09"] = dict(
+  level="model_checking",
+  technique="TLA+ model checking of all call histories (TLC) + Apalache inductive invariant of the abstract protocol + replay of every history on the real generator",
+  text="TLC explores every history over MoveNext/Current/Send/Result up to the length bound on a family of generators (0..n yields, with/without result, effectful, echoing BindRecv, infinite) and checks: Current is zero when fresh/exhausted, exhaustion is permanent and runs no generator code (action property), agreement with the structured reference where Send(v) means resume-with-v, and refinement of the abstract protocol machine GenProtocol, whose inductive invariant Apalache discharges without bound. Every history is replayed on the real generator; the return value of every call, Current (read twice), Result and the generator-side effect log must match.",
+  note="Trusted: TLC, Apalache, the term renderer, rt.Rec. Send/Result have no native Go reference; the oracle is the seq.go transcription cross-checked against the structured reference. Bounded: histories of length 5 (quick) / 7 (thorough), 9 generators.",
+  design="7 C09, 3.8")
+
 NOT_YET = {}
 
 def main():
